@@ -143,6 +143,7 @@ class ActiveSearch(TransductiveModel):
                 max_reward_idx = out["reward"].argmax()
                 best_solution_iter = out["actions"][max_reward_idx]
                 max_reward = max_reward_iter
+                best_solutions[0] = 0  # a shorter incumbent must not keep the tail of a longer one
                 best_solutions[0, : best_solution_iter.shape[0]] = best_solution_iter
 
             # Compute REINFORCE loss with shared baseline
